@@ -379,18 +379,22 @@ func parseTargets(s string) ([]Target, error) {
 		}
 		if strings.HasPrefix(part, "all ") && strings.HasSuffix(part, "[*]") {
 			// contents of the map / slice stored in field f of every object of type T
-			ts := strings.Split(strings.TrimSuffix(strings.TrimSpace(part[4:]), "[*]"), ".")
-			if len(ts) != 2 {
+			body := strings.TrimSuffix(strings.TrimSpace(part[4:]), "[*]")
+			li := strings.LastIndex(body, ".")
+			if li <= 0 {
 				return nil, fmt.Errorf("bad type-field-contents target %q", part)
 			}
+			ts := []string{body[:li], body[li+1:]}
 			out = append(out, Target{Kind: "typefieldcontents", X: &EIdent{ts[0]}, Sel: ts[1], Src: part})
 			continue
 		}
 		if strings.HasPrefix(part, "all ") {
-			ts := strings.Split(strings.TrimSpace(part[4:]), ".")
-			if len(ts) != 2 {
+			body := strings.TrimSpace(part[4:])
+			li := strings.LastIndex(body, ".")
+			if li <= 0 {
 				return nil, fmt.Errorf("bad type-field target %q", part)
 			}
+			ts := []string{body[:li], body[li+1:]}
 			out = append(out, Target{Kind: "typefield", X: &EIdent{ts[0]}, Sel: ts[1], Src: part})
 			continue
 		}
